@@ -435,3 +435,6 @@ RULES = [
     ("C19.SILENT", 7, rule_silent),
     ("C19.CACHEKEY", 5, rule_cachekey),
 ]
+
+from . import common as _common_purity
+RULES = RULES + _common_purity.purity_rules("C19")
